@@ -8,7 +8,7 @@
 (* against the same expectation, which also decides "independent of which  *)
 (* other selectors are registered".                                        *)
 (***************************************************************************)
-EXTENDS Naturals, Integers, Sequences, FiniteSets, TLC, Json, IOUtils, Selectors
+EXTENDS Naturals, Integers, Sequences, FiniteSets, TLC, Json, IOUtils, Selectors, DocNs
 
 Rec == ndJsonDeserialize(IOEnv.TRACE)
 VARIABLES l, nbad
@@ -41,7 +41,7 @@ Verdict(r) == LET v == FirstBad(r, Expected(r), 1) IN
 
 TInit == l = 1 /\ nbad = 0
 TNext == /\ l <= Len(Rec)
-         /\ LET v == Verdict(Rec[l]) IN
+         /\ LET v == Verdict(WithNs(Rec[l])) IN
             IF v = "ok" THEN UNCHANGED nbad ELSE PrintT(<<"BAD", Rec[l].id, 0, v>>) /\ nbad' = nbad + 1
          /\ l' = l + 1
 TSpec == TInit /\ [][TNext]_vars
